@@ -176,11 +176,9 @@ def c09_edge(ctx, I, t):
           'the inverse search finds an instant of December 9999 when the searched range ends with year 9999', f_, fn_site(p, 'EightChar::get_solar_times'))
 
 
-def c17_edge(ctx, I, t):
-    """day nine star in the first and the last supported civil year: the solstices that bound its runs lie in years 0 resp. 10000"""
+def day_star_on(ctx, I, t, scen, picks, key, what, rule):
+    """day nine star through the real civil -> sexagenary / lunar day routes on scenario calendars vs the solstice / Jiazi rule"""
     p = ctx.prog
-    scen = edge_scenarios()
-    ctx.rule('RANGE-END', 'the first and last days / lunar years of the supported range: the answer exists although a neighbouring term, month or day lies outside the range')
 
     def nearest_jiazi(n):
         idx = (n + 49) % 60
@@ -191,9 +189,11 @@ def c17_edge(ctx, I, t):
         y = CAL.from_jdn(n)[0]
         tm = scen[si][1]
         s1, ni, s2 = nearest_jiazi(tm[(y, 0)][0]), nearest_jiazi(tm[(y, 12)][0]), nearest_jiazi(tm[(y + 1, 0)][0])
-        if s1 <= n < ni:
+        if n < s1:
+            return None          # before the first turning day of the civil year: not judged (see not_decided)
+        elif n < ni:
             v = (n - s1) % 9
-        elif ni <= n < s2:
+        elif n < s2:
             v = (8 - (n - ni)) % 9
         else:
             v = (n - s2) % 9
@@ -204,11 +204,70 @@ def c17_edge(ctx, I, t):
         cm = CalModel(I, scen[si][1], scen[si][2])
         d = cm.solar_day_n(n)
         return (t.idx(t.m(t.m(d, 'get_sixty_cycle_day'), 'get_nine_star')), t.idx(t.m(t.m(d, 'get_lunar_day'), 'get_nine_star')))
-    dom = []
-    for si, y in ((1, 1),):       # the property's quantifier is 0001..9998: the last year is outside it
-        lo = max(nearest_jiazi(scen[si][1][(y, 0)][0]), CAL.jdn(y, 1, 1))
-        covered = lambda n: any(r['first'] <= n < r['first'] + r['count'] for r in scen[si][2])
-        dom += [(si, n) for n in (lo + 3, CAL.jdn(y, 3, 1), CAL.jdn(y, 7, 20), CAL.jdn(y, 11, 30), CAL.jdn(y, 12, 31)) if covered(n)]
-    table(ctx, 'RANGE-END', 'RANGE:day-nine-star:first-year', dom, star, orc,
-          'the day star of days of year 1 (the winter solstice that starts its ascending run lies in December of year 0)',
-          fmt(scen), fn_site(p, 'LunarDay::get_nine_star'))
+    allp = picks(nearest_jiazi)
+    dom = [x for x in allp if orc(x) is not None]
+    table(ctx, rule, key, dom, star, orc, what, fmt(scen), fn_site(p, 'LunarDay::get_nine_star'))
+    early = [x for x in allp if orc(x) is None]
+    if early:
+        # before the first turning day of the civil year no independent rule is asserted, but the two copies of the routine must still agree
+        table(ctx, 'SIB-AGREE', key + ':copies-agree', early, lambda x: len(set(star(x))) == 1, lambda x: True,
+              'the lunar-day and sexagenary-day copies of the day-star routine give the same star on the days before the first turning day of the civil year', fmt(scen), fn_site(p, 'SixtyCycleDay::get_nine_star'))
+
+
+def c17_edge(ctx, I, t):
+    """day nine star in the first supported civil year: the solstice that starts its ascending run lies in December of year 0"""
+    scen = edge_scenarios()
+    ctx.rule('RANGE-END', 'the first and last days / lunar years of the supported range: the answer exists although a neighbouring term, month or day lies outside the range')
+
+    def picks(nearest_jiazi):
+        dom = []
+        for si, y in ((1, 1),):       # the property's quantifier is 0001..9998: the last year is outside it
+            lo = max(nearest_jiazi(scen[si][1][(y, 0)][0]), CAL.jdn(y, 1, 1))
+            covered = lambda n: any(r['first'] <= n < r['first'] + r['count'] for r in scen[si][2])
+            dom += [(si, n) for n in (lo + 3, CAL.jdn(y, 3, 1), CAL.jdn(y, 7, 20), CAL.jdn(y, 11, 30), CAL.jdn(y, 12, 31)) if covered(n)]
+        return dom
+    day_star_on(ctx, I, t, scen, picks, 'RANGE:day-nine-star:first-year',
+                'the day star of days of year 1 (the winter solstice that starts its ascending run lies in December of year 0)', 'RANGE-END')
+
+
+def c17_routes(ctx, I, t):
+    """day nine star through the real date routes in an ordinary year, incl. the days of January before the lunar new year (lunar year != civil year)"""
+    Y = 2000
+    scen = []
+    for name, shift in (('modern', 0), ('julian-era (-12 d)', -12)):
+        tm = typical_terms(range(Y - 2, Y + 3), shift=dict((i, shift) for i in range(24)))
+        scen.append((name, tm, synthetic_months(Y - 1, CAL.jdn(Y - 1, 2, 16), 3, leap={Y: 4}, prev_months=3, auto_leap=False)))
+    ctx.rule('PETE-SCENARIO', 'almanac getters reached through the real date routes on scenario calendars')
+
+    def picks(nearest_jiazi):
+        dom = []
+        for si in range(len(scen)):
+            dom += [(si, n) for n in list(range(CAL.jdn(Y, 1, 1), CAL.jdn(Y, 2, 12), 4)) + [CAL.jdn(Y, 3, 1), CAL.jdn(Y, 6, 20), CAL.jdn(Y, 7, 25), CAL.jdn(Y, 12, 20), CAL.jdn(Y, 12, 31)]]
+        return dom
+    day_star_on(ctx, I, t, scen, picks, 'day-nine-star:date-routes',
+                'the day star reached from a civil date through both views follows the solstice / Jiazi rule of the CIVIL year, also in January before the lunar new year', 'PETE-SCENARIO')
+
+    # day officer / day spirit through the real construction of the sexagenary day: the month branch is the one of the governing Jie (not of the civil or lunar month)
+    from rules.c08 import oracle_day
+    from rules.c17 import DUTY, twelve_oracle
+    p = ctx.prog
+
+    def officer(x):
+        si, n = x
+        cm = CalModel(I, scen[si][1], scen[si][2])
+        d = cm.solar_day_n(n)
+        scd = t.m(d, 'get_sixty_cycle_day')
+        ld = t.m(d, 'get_lunar_day')
+        return (t.name(t.m(scd, 'get_duty')), t.name(t.m(scd, 'get_twelve_star')), t.name(t.m(ld, 'get_duty')), t.name(t.m(ld, 'get_twelve_star')))
+
+    def officer_orc(x):
+        si, n = x
+        yp, mp = oracle_day(scen[si][1], CAL.from_jdn(n)[0], n)
+        mb = G.BRANCHES.index(mp[1])
+        db = ((n + 49) % 60) % 12
+        a, b = DUTY[(db - mb) % 12], twelve_oracle(mb, db)
+        return (a, b, a, b)
+    odom = [(si, n) for si in range(len(scen)) for n in range(CAL.jdn(Y, 1, 1), CAL.jdn(Y, 12, 31), 3)]
+    table(ctx, 'PETE-SCENARIO', 'day-officer/spirit:date-routes', odom, officer, officer_orc,
+          'day officer and day spirit reached from a civil date use the month branch of the governing Jie (modern and Julian-era term placements; every third day of a year)',
+          fmt(scen), fn_site(p, 'SixtyCycleDay::get_duty'))
